@@ -796,6 +796,10 @@ func (val Value) Modulo(other Value) Value {
 		return (*shortCircuit).RefineNotNull()
 	}
 
+	if val.IsNull() || other.IsNull() {
+		panic("cannot compute modulo of null number")
+	}
+
 	// We cheat a bit here with infinities, just abusing the Multiply operation
 	// to get an infinite result of the correct sign.
 	if val == PositiveInfinity || val == NegativeInfinity || other == PositiveInfinity || other == NegativeInfinity {
